@@ -1,21 +1,30 @@
 """C07 The formula parser computes the true composition of every well-formed formula (composition stage only)."""
-from vlib.core import Group
+import os
+import re
+from vlib.core import Group, VERIF
 from . import common
 
 LEVEL = "other"
-EXPLANATION = ("PARTIAL. Decided (bounded, K5, compositions of <= 3 / 5 elements): the outer CompoundParser given the assumed contract of "
-               "the scanner - elements ascending as scanned, total atom count, molar mass, mass fraction = count x atomic weight / molar "
-               "mass (bit-exact: attempted in the thorough tier only, no back end finishes), fractions are numbers, molar mass positive, NULL iff exactly one error, elements without an atomic weight rejected, the scanner "
-               "runs under the C numeric locale and the caller's locale is restored (ghost model of setlocale), temporaries freed on both "
-               "outcomes (--memory-leak-check). NOT decided by this family: everything inside the scanner CompoundParserSimple - acceptance of "
-               "well-formed formulas, the rejection classes, atom counts equal to the algebraic expansion, invariance under reordering and "
-               "group expansion (the scanner does not finish in CBMC even for strings of length 2, and a specification of 'the algebraic "
-               "expansion' would itself be a parser, i.e. a model). add_compound_data: a bounded lemma exists (ascending union, wA*fA + wB*fB) but no back end finishes; attempted in the thorough tier only, NOT decided.")
+EXPLANATION = ("PARTIAL, every obligation bounded (K5). Decided: (1) the outer CompoundParser given the assumed contract of the scanner "
+               "(compositions of <= 3 / 5 elements) - elements ascending as scanned, fractions are numbers, molar mass and atom total positive, NULL iff "
+               "exactly one error, elements without an atomic weight rejected, the scanner runs under the C numeric locale and the caller's locale is "
+               "restored (ghost model of setlocale), temporaries freed on both outcomes (--memory-leak-check); (2) add_compound_data for 1-2 x 1-2 "
+               "(thorough: 1-3 x 1-3) elements: the result lists exactly the union of the two element lists, strictly ascending; (3) the REAL scanner "
+               "CompoundParserSimple on a fixed list of formula shapes (A, AB, B3A, AB2A, (AB)2, AbCdB3, ((A))) with the atomic number behind every "
+               "letter symbolic (letters may coincide or be unknown symbols) and every subscript value symbolic (or zero): accepted exactly when "
+               "all symbols are known and no subscript is zero, exactly one error otherwise, elements strictly ascending without duplicates and equal "
+               "as a set to the symbols of the formula, and every bsearch call is made on a strictly ascending list (its C11 precondition). "
+               "NOT decided by this family: acceptance/rejection of arbitrary strings, atom counts equal to the algebraic expansion, invariance under "
+               "reordering and group expansion, shapes that merge a parenthesised group into a non-empty list (no back end finishes; attempted in the "
+               "thorough tier), bit-exact molar mass / mass fractions and the weighted sums wA*fA + wB*fB of add_compound_data (attempted in the "
+               "thorough tier, no back end finishes even for 1 x 1 elements).")
 ASSUMPTIONS = [
-    "assumed contract of CompoundParserSimple: 0 + exactly one error, or 1..N strictly ascending atomic numbers in 1..107 with atom counts in [1e-6, 1e6) in one malloc'ed array",
+    "assumed contract of CompoundParserSimple (for the lemmas on CompoundParser only): 0 + exactly one error, or 1..N strictly ascending atomic numbers in 1..107 with atom counts in [1e-6, 1e6) in one malloc'ed array",
     "TABLES_WF: atomic weights are absent (<= 0) or in [1, 1000) (audited natively)",
     "assumed contract of setlocale (C11 7.11.1.1): a non-NULL argument installs that locale and returns the new name, NULL queries; the returned string is overwritten by the next call",
-    "bounded: N = 3 (quick) / 5 (thorough) elements",
+    "assumed libc contracts in executable form (scanner / add_compound_data lemmas): qsort sorts exactly the range passed with the comparison function; bsearch requires an ascending array and returns the matching entry or NULL; realloc preserves the old contents; strndup copies at most n characters; strtod converts the whole numeral to a value in [1e-6, 1e6) or to 0; the ctype predicates are those of the C locale (-D__NO_CTYPE selects the function forms, CBMC's models)",
+    "assumed contract of the symbol table lookup (bsearch over MendelArraySorted): a known symbol yields its atomic number in 1..107, an unknown one NULL",
+    "bounded: N = 3 (quick) / 5 (thorough) elements; add_compound_data shapes 1-2 x 1-2 (quick) / 1-3 x 1-3 (thorough); scanner: the fixed shape list in harness/h_parser.c",
 ]
 
 
@@ -42,6 +51,23 @@ def groups(sc, tier):
                         unwind=a + b + 3, leak_check=True, functions=["add_compound_data", "compareInt"], attempt_only=True,
                         note="ascending union and wA*fA + wB*fB: no back end finishes within 20 min (symbolic realloc/calloc sizes); thorough tier, attempted",
                         bounded="compositions of %d and %d elements" % (a, b)))
+        gs.append(Group("C07.K5.add_compound_data_elements.%dx%d" % (a, b), "K5", "lemma_add_compound_data", sources=["src/xraylib-parser.c", "src/xraylib-aux.c"],
+                        extra=["harness/h_parser.c"], export_local=True, remove_bodies=["__CPROVER_file_local_xraylib_parser_c_CompoundParserSimple"],
+                        harness_defines=["-DNMAXEL=%d" % n, "-DLEMMA_ADD", "-DELEMENTS_ONLY", "-DNA_EL=%d" % a, "-DNB_EL=%d" % b], backends=("sat", "cvc5"), timeout=1200,
+                        unwind=a + b + 3, leak_check=True, functions=["add_compound_data", "compareInt"],
+                        bounded="compositions of %d and %d elements" % (a, b)))
+    m = re.search(r'g_shapes\[\] = \{([^}]*)\}', open(os.path.join(VERIF, "harness/h_parser.c")).read())
+    shapes_txt = re.findall(r'"([^"]*)"', m.group(1))
+    n_decided = len(re.findall(r'"([^"]*)"', m.group(1).split("/*ATTEMPT*/")[0]))
+    for k, txt in enumerate(shapes_txt):
+        gs.append(Group("C07.K5.scanner_shape.%d" % k, "K5", "lemma_scanner_shape", sources=["src/xraylib-parser.c", "src/xraylib-aux.c"], extra=["harness/h_parser.c"],
+                        export_local=True, defines=["-D__NO_CTYPE"], harness_defines=["-DNMAXEL=%d" % n, "-DLEMMA_SCAN", "-DSHAPE=%d" % k] + (["-DNO_COUNTS"] if re.search(r"[0-9]", txt) else []),
+                        backends=("sat", "cvc5"), timeout=900, unwind=20, functions=["CompoundParserSimple", "compareCompoundAtoms"],
+                        # at most 4 distinct elements: tight bounds for the loops over the element list (unwinding assertions stay on)
+                        flags=["--unwindset", ",".join("%s:6" % l for l in ("qsort.0", "qsort.1", "bsearch.0", "bsearch.1", "realloc.0", "realloc.1",
+                                                                          "__CPROVER_file_local_xraylib_parser_c_CompoundParserSimple.6"))],
+                        attempt_only=(k >= n_decided), note="" if k < n_decided else "group merged into a non-empty element list: no back end finishes (memory)",
+                        bounded="formula shape '%s'; atomic numbers behind the letters and subscript values symbolic" % txt))
     return gs
 
 
